@@ -1,7 +1,53 @@
-import VermouthModel.Proto
-open Proto
+import VermouthModel.C18
+open Proto C18
 
-/-- placeholder driver for C18: replaced when the model is written -/
-def handle (_ : Unit) (_ : List Tok) : Unit × String := ((), "bad-op")
+def posOf (x y z : Tok) : Option Pos := do pure (← x.int?, ← y.int?, ← z.int?)
+
+def atomOf (t : Tok) : Option Atom := do
+  match ← t.list? with
+  | [k, an, r, o, rn, ch, ty, cg, x, y, z, ss] =>
+    pure { key := ← k.int?, atomname := ← an.str?, resid := ← r.int?, oldResid := ← o.int?,
+           resname := ← rn.str?, chain := ← ch.str?, atype := ← ty.str?, cg := ← cg.optInt?,
+           pos := ← posOf x y z, ss := ← ss.optStr? }
+  | _ => none
+
+def edgeOf (t : Tok) : Option (Int × Int) := do
+  match ← t.list? with
+  | [a, b] => pure (← a.int?, ← b.int?)
+  | _ => none
+
+def contactOf (t : Tok) : Option Contact := do
+  match ← t.list? with
+  | [ra, ca, rb, cb] => pure { residA := ← ra.int?, chainA := ← ca.str?, residB := ← rb.int?, chainB := ← cb.str? }
+  | _ => none
+
+def encVS (v : VSite) : String :=
+  encList [encInt v.key, encInt v.bb, encInt v.resid, encInt v.oldResid, encStr v.resname, encStr v.atype,
+           encInt v.cg, encStr v.chain, encInt v.pos.1, encInt v.pos.2.1, encInt v.pos.2.2,
+           encStr v.atomname, encInt v.charge, encInt v.mass, encOptStr v.ss]
+
+def encOutcome : Outcome → String
+  | .exit => "exit"
+  | .keyerror => "keyerror"
+  | .ok out =>
+    "ok " ++ encList (out.map fun c => encList [encStr c.ta, encStr c.tb, encNat c.d2])
+      ++ " " ++ encList (out.map fun c => encList [encInt c.bbA, encInt c.bbB])
+
+def handle (_ : Unit) (toks : List Tok) : Unit × String :=
+  let r : Option String :=
+    match toks with
+    | [Tok.str "go", pre, bb, vsn, atoms, edges, contacts, lp, lq, up, uq, sep] => do
+        let P : Params := { pre := ← pre.str?, backbone := ← bb.str?,
+                            low := { p := ← lp.int?, q := ← lq.nat? }, up := { p := ← up.int?, q := ← uq.nat? },
+                            sep := ← sep.int? }
+        let as ← (← atoms.list?).mapM atomOf
+        let es ← (← edges.list?).mapM edgeOf
+        let cs ← (← contacts.list?).mapM contactOf
+        let (vs, o) := goPipeline P (← vsn.str?) as es cs
+        pure ("vs " ++ encList (vs.map encVS) ++ " inter "
+              ++ encList ((vsInteractions vs).map fun p => encList [encInt p.1, encInt p.2])
+              ++ " go " ++ encOutcome o)
+    | _ => none
+  ((), r.getD "bad-op")
 
 def main : IO Unit := runDriver handle ()
